@@ -26,7 +26,7 @@ ASSUMPTIONS = [
     "only successful operations (the property's precondition); setup(sel) is generated with target_nodes only",
     "deep copies inherit the setup values already computed by the instance they were copied from",
 ]
-BUDGET = {"quick": {"shards": 4, "seconds": 40}, "thorough": {"shards": 16, "seconds": 420}}
+BUDGET = {"quick": {"shards": 8, "seconds": 40}, "thorough": {"shards": 16, "seconds": 420}}
 
 
 def program_strategy() -> Any:
